@@ -218,7 +218,11 @@ def export_multi(ct):
                 word.append([k, opstr])
             word.append([i, op])
             prev = i
-        out.append({'word': word, 'strength': cnum(st)})
+        out.append({'word': word, 'strength': cnum(st),
+                    # stored form (paths of terms_left / terms_right, connection) for the Coq model of add_to_graph
+                    'left': [[int(i), op, opstr] for i, op, opstr in tl],
+                    'right': [[int(i), op, opstr] for i, op, opstr in (right[c] or ())],
+                    'sw': sw, 'op_sw': op_sw, 'shift': shift})
     return out
 
 
